@@ -43,6 +43,19 @@ Theorem C18_registration_window_sequential : forall i s c nick msg,
   c_auth c = false -> split_nick cfg verify i s s c nick = process_nick cfg verify i s c nick msg.
 Proof. exact (split_nick_sequential cfg verify). Qed.
 
+(* linearisation points of that handler: free at look-up and still free at commit - the sequential
+   handler executed at commit time; taken at look-up - the sequential handler executed at look-up time *)
+Theorem C18_linearises_at_commit : forall i s_check s_commit c nick msg,
+  c_auth c = false -> users s_check !! nick = None -> users s_commit !! nick = None ->
+  split_nick cfg verify i s_check s_commit c nick = process_nick cfg verify i s_commit c nick msg.
+Proof. exact (split_nick_linearises_at_commit cfg verify). Qed.
+
+Theorem C18_linearises_at_check : forall i s_check s_commit c nick msg x,
+  c_auth c = false -> users s_check !! nick = Some x ->
+  (exists r, split_nick cfg verify i s_check s_commit c nick = Ok r /\ h_sh r = s_commit /\ h_conn r = c) /\
+  (exists r, process_nick cfg verify i s_check c nick msg = Ok r /\ h_sh r = s_check /\ h_conn r = c).
+Proof. exact (split_nick_linearises_at_check cfg verify). Qed.
+
 (* first JOINs: whoever comes first in the serial order creates the channel and is its founder;
    for everybody after, the channel exists and the check phase never answers "create" *)
 Theorem C18_one_founder : forall s c u nick client chname key,
@@ -80,6 +93,8 @@ Print Assumptions C18_every_interleaving.
 Print Assumptions C18_one_claim_wins.
 Print Assumptions C18_registration_window_safe.
 Print Assumptions C18_registration_window_sequential.
+Print Assumptions C18_linearises_at_commit.
+Print Assumptions C18_linearises_at_check.
 Print Assumptions C18_one_founder.
 Print Assumptions C18_limit_never_exceeded.
 Print Assumptions C18_order_kept.
